@@ -27,3 +27,37 @@ package aggregate
 //@ callsite SetERC20Map [address-indexed] erc20 == pair.GetERC20Contract() && id == pair.GetID()
 //@ loop 1 continue [each-pair-once] ncalls("SetTokenPair") == 1 && ncalls("SetDenomsMap") == 1 && ncalls("SetERC20Map") == 1
 //@ ensures [everything-imported] loopCompleted(1)
+
+// module invariant of the registry (C12: established by genesis import and preserved by every registry operation)
+// verif:import keeper github.com/teleport-network/teleport/x/aggregate/keeper
+// ======================= C15: executing a passed aggregate proposal never panics in EndBlock ======================
+// ("nopanic dryrun": a panic site whose guard depends on the proposal content only and that lies on every
+// nil-returning path is covered by the governance submission dry-run, DESIGN section 8 C15 tier ii)
+// verif:func handleRegisterCoinProposal
+//@ nopanic dryrun
+//@ modifies world(ctx)
+// verif:func handleAddCoinProposal
+//@ requires [registry-inv] idsConsistent(aggregate(ctx))
+//@ nopanic dryrun
+//@ modifies world(ctx)
+// verif:func handleRegisterERC20Proposal
+//@ nopanic dryrun
+//@ modifies world(ctx)
+// verif:func handleToggleRelayProposal
+//@ requires [registry-inv] idsConsistent(aggregate(ctx))
+//@ nopanic dryrun
+//@ modifies world(ctx)
+// verif:func handleUpdateTokenPairERC20Proposal
+//@ requires [registry-inv] idsConsistent(aggregate(ctx))
+//@ requires [registry-inv2] pairsHaveDenoms(aggregate(ctx))
+//@ nopanic dryrun
+//@ modifies world(ctx)
+// verif:func handleRegisterERC20TraceProposal
+//@ nopanic dryrun
+//@ modifies world(ctx)
+// verif:func handleEnableTimeBasedSupplyLimitProposal
+//@ nopanic dryrun
+//@ modifies world(ctx)
+// verif:func handleDisableTimeBasedSupplyLimitProposal
+//@ nopanic dryrun
+//@ modifies world(ctx)
